@@ -21,7 +21,7 @@ PARTS = {'quick': 12, 'thorough': 15}
 WALKS = {'quick': (80, 150), 'thorough': (2000, 400)}
 BUDGET = {'quick': 40, 'thorough': 700}
 REST = ('R_UPD', 'R_WD', 'R_RR', 'R_BIN', 'R_RR6', 'R_RRVPN', 'R_UPDBAD', 'R_UPDNOATTR', 'R_BINBAD')
-ALPHA = S.ALPHABET_C01 + ['OPEN_nocap'] + S.ODD_LENGTH
+ALPHA = S.ALPHABET_C01 + ['OPEN_nocap', 'UPD_atoverrun'] + S.ODD_LENGTH
 
 
 def register_fuzz(fuzz):
